@@ -48,7 +48,18 @@ def run(chk, driver, tier):
                     for loc in ("", "+abc", "+1"):
                         grid.append(rel + pre + post + dev + loc)
     sample = grid + [s for s in strings if all(ord(c) < 128 for c in s)][:400 if tier == "thorough" else 150]
-    parsed = [bv.parse_version(s) for s in sample]
+    # the comparison has to be DEFINED on every string: a string parse_version cannot take is a violation by itself
+    parsed, ok_sample = [], []
+    for s in sample:
+        try:
+            p = bv.parse_version(s)
+            p <= p
+        except Exception as ex:            # noqa: BLE001
+            chk.oracle_case({"kind": "single", "s": s}, "parse_version / comparison raises %s on %r: the order is not total on all strings" % (type(ex).__name__, s))
+            continue
+        parsed.append(p)
+        ok_sample.append(s)
+    sample = ok_sample
     for i, (s, p) in enumerate(zip(sample, parsed)):
         verdict = None
         if not (p <= p and p >= p and p == p):
@@ -66,7 +77,7 @@ def run(chk, driver, tier):
                     verdict = "%r is not PEP 440 for packaging but parsed as Version %r" % (s, str(p))
         chk.oracle_case({"kind": "single", "s": s}, verdict)
     n = len(sample)
-    ng = len(grid)
+    ng = min(len(grid), n)
     triples = [(i, j, (i * 7 + j * 13) % ng) for i in range(ng) for j in range(ng) if (i + j) % (1 if tier == "thorough" else 3) == 0]
     triples += [(rng.randrange(n), rng.randrange(n), rng.randrange(n)) for _ in range(40000 if tier == "thorough" else 6000)]
     for i, j, k in triples:
